@@ -23,7 +23,7 @@ def shards(tier, seed):
     out = []
     for L in T.LETTERS:
         out.append({"name": "note-" + L, "kind": "note", "letter": L,
-                    "acc": 2 if tier == "quick" else 3, "octaves": [0, 1, 4, 8] if tier == "quick" else list(range(10)),
+                    "acc": 3, "octaves": [0, 1, 4, 8] if tier == "quick" else list(range(10)),
                     "weight": 4})
     n = 300 if tier == "quick" else 5000
     parts = 4 if tier == "quick" else 16
@@ -136,6 +136,17 @@ def run(shard, ctx):
         shs = [s for s in T.all_shorthands(1) if 0 <= T.shorthand_size(s) <= 11]
         for ti in range(shard["n"]):
             t = MU.random_track(rng, acc=1, lo=24, hi=84)
+            if rng.random() < 0.3 and t.bars:
+                # a bar whose containers are built *from* containers already in the track (copies must be independent)
+                src = [e for b in t.bars for e in b.bar if e[2] is not None]
+                if src:
+                    nb = Bar(t.bars[-1].key, (0, 0))
+                    for e in rng.sample(src, min(len(src), rng.randint(1, 3))):
+                        nb.place_notes(NoteContainer(e[2]), e[1])
+                        other = NoteContainer()
+                        other.add_notes(e[2])
+                        nb.place_notes(other, e[1])
+                    t.add_bar(nb)
             level = rng.choice(["track", "track", "bar", "container"])
             steps = []
             bound = 1       # upper bound on the accidentals any note can carry; beyond 6 the interval
